@@ -188,14 +188,14 @@ theorem stepL_cons {F : Key → Ev} {env : List (Option Ev)} {r1 : Ev × St} {x 
   simp only [expandList, he1, he2]
 
 /-- the three leading children of a typed hash -/
-theorem stepL_head3 {F : Key → Ev} (hF : FStr F) (c : Cfg) (tn : String) {st : St} {env : List (Option Ev)}
+theorem stepL_head3 {F : Key → Ev} (hF : FStr F) (c : Cfg) (tl : Nat) (tn : String) {st : St} {env : List (Option Ev)}
     (hI : Inv F st env) {e : Ev} {st1 : St} {x : Ev}
-    (h : ∀ env1, Inv F (head3 c tn st).2 env1 → Step F env1 (e, st1) x) :
-    StepL F env ((head3 c tn st).1 ++ [e], st1) [ptypeEv, .add (.str tn), pvalueEv, x] := by
+    (h : ∀ env1, Inv F (head3 c tl tn st).2 env1 → Step F env1 (e, st1) x) :
+    StepL F env ((head3 c tl tn st).1 ++ [e], st1) [ptypeEv, .add (.str tn), pvalueEv, x] := by
   simp only [head3, List.cons_append, List.nil_append]
   apply stepL_cons (step_strData hF c 2 "__ptype" hI)
   intro env1 hI1
-  apply stepL_cons (step_strData hF c 1 tn hI1)
+  apply stepL_cons (step_strData hF c tl tn hI1)
   intro env2 hI2
   apply stepL_cons (step_strData hF c 2 "__pvalue" hI2)
   intro env3 hI3
@@ -203,12 +203,12 @@ theorem stepL_head3 {F : Key → Ev} (hF : FStr F) (c : Cfg) (tn : String) {st :
   exact stepL_cons (r1 := (e, st1)) this (fun env4 hI4 => stepL_nil hI4)
 
 /-- a typed hash `{__ptype: tn, __pvalue: x}` emitted under `process` with key `k` -/
-theorem step_typed {F : Key → Ev} (hF : FStr F) (c : Cfg) (k : Key) (tn : String) {st : St}
+theorem step_typed {F : Key → Ev} (hF : FStr F) (c : Cfg) (k : Key) (tl : Nat) (tn : String) {st : St}
     {env : List (Option Ev)} (hI : Inv F st env) {e : Ev} {st1 : St} {x : Ev} (hk : F k = typed tn x)
-    (h : ∀ env1, Inv F (head3 c tn (bump st)).2 env1 → Step F env1 (e, st1) x) :
-    Step F env (record c k st.ref (.hsh ((head3 c tn (bump st)).1 ++ [e]), st1)) (typed tn x) := by
+    (h : ∀ env1, Inv F (head3 c tl tn (bump st)).2 env1 → Step F env1 (e, st1) x) :
+    Step F env (record c k st.ref (.hsh ((head3 c tl tn (bump st)).1 ++ [e]), st1)) (typed tn x) := by
   apply step_record c k hI hk
-  have hl := stepL_head3 hF c tn hI.open' h
+  have hl := stepL_head3 hF c tl tn hI.open' h
   obtain ⟨env', h1, h2, h3, h4⟩ := step_hsh hl
   exact ⟨env', h1, h2, h3, fun _ => h4⟩
 
@@ -249,9 +249,9 @@ theorem toData_step (c : Cfg) (F : Key → Ev) (hF : FStr F) :
         · rename_i hc
           split
           · rename_i hr
-            apply step_typed hF c _ "Hash" hI (by rw [hC.1]; simp [plain, hc, hr])
+            apply step_typed hF c _ 1 "Hash" hI (by rw [hC.1]; simp [plain, hc, hr])
             intro env1 hI1
-            have hl := flatData_step c F hF es (bump (head3 c "Hash" (bump st)).2) (env1 ++ [none]) hI1.open' hC.2
+            have hl := flatData_step c F hF es (bump (head3 c 1 "Hash" (bump st)).2) (env1 ++ [none]) hI1.open' hC.2
             obtain ⟨env', h1, h2, h3, _⟩ := step_arr hl
             exact ⟨env', h1, h2, h3⟩
           · rename_i hr
@@ -279,7 +279,7 @@ theorem toData_step (c : Cfg) (F : Key → Ev) (hF : FStr F) :
       · simp only [plain]
         split
         · rename_i hr
-          apply step_typed hF c _ "Sensitive" hI (by rw [hC.1]; simp [plain, hr])
+          apply step_typed hF c _ 1 "Sensitive" hI (by rw [hC.1]; simp [plain, hr])
           intro env1 hI1
           exact toData_step c F hF 1 v _ env1 hI1 hC.2
         · rename_i hr
@@ -299,7 +299,7 @@ theorem toData_step (c : Cfg) (F : Key → Ev) (hF : FStr F) :
         · rename_i hb
           split
           · rename_i hr
-            apply step_typed hF c _ "Binary" hI (by rw [hC]; simp [plain, hb, hr])
+            apply step_typed hF c _ 1 "Binary" hI (by rw [hC]; simp [plain, hb, hr])
             intro env1 hI1
             exact step_strData hF c 1 (b64 bs) hI1
           · rename_i hr
@@ -313,7 +313,7 @@ theorem toData_step (c : Cfg) (F : Key → Ev) (hF : FStr F) :
         split
         · rename_i r hs
           exact ⟨env, by rw [ref_ok hI hs, hC]; simp [plain, hr], hI, Ext.refl _⟩
-        · apply step_typed hF c _ k.typeName hI (by rw [hC]; simp [plain, hr])
+        · apply step_typed hF c _ k.typeLevel k.typeName hI (by rw [hC]; simp [plain, hr])
           intro env1 hI1
           exact step_strData hF c 1 enc hI1
       · exact step_strData hF c 1 disp hI
